@@ -14,9 +14,10 @@ What is proved here and what is not:
   replacement included); counters; `Reset`; over-size queries are never stored; in normalising mode the
   synthetic arguments returned are those of this very request, and transparency *conditional* on the
   fingerprint determining the plan.
-* not proved (and false for the real normaliser, D-06b…e): that the fingerprint determines the plan.  The
-  witnesses at the end show on the model of `fingerprintDocument` that directives and variable default values
-  do not participate in the key.
+* not proved: that the fingerprint determines the plan (no injectivity theorem for `fingerprintBytes`, and FNV-1a
+  is a hash).  The recorded counterexamples D-06b/c/g are repaired; the witnesses at the end show on the model
+  of `fingerprintDocument` that directives, their arguments, variable default values and crafted string
+  contents now separate keys.
 * not modelled here: `ExecutePlan` on a shared plan (plan reuse: C01/C20 own the executor model); it is
   covered by the differential part of the check only. -/
 namespace GqlModel.PlanCache
@@ -379,12 +380,13 @@ theorem synthArgs_are_this_request's (norm : S → Bytes → Bytes → NormOut A
       · cases h
       · simp only [Option.some.injEq] at h; subst h; exact ⟨nk, rfl⟩
 
-/-- **normalized_transparent_conditional.** IF the cache key of the normalising mode determines the plan
+/-- **normalized_transparent_partial.** IF the cache key of the normalising mode determines the plan
 (hypothesis `hdet`: two requests to the same schema with the same key have the same validate+plan result),
-THEN every `Get` of every history returns the from-scratch result of its own request.  The hypothesis is what
-the real normaliser does NOT satisfy (D-06b…e, see the witnesses in §7 and the notes); the theorem isolates it:
+THEN every `Get` of every history returns the from-scratch result of its own request.  The hypothesis is the
+soundness of the fingerprint, which is not proved (it was violated by D-06b…g before their repair, see §7 and
+the notes); the theorem isolates it:
 the LRU/guard logic adds no further way to serve a wrong plan. -/
-theorem normalized_transparent_conditional (norm : S → Bytes → Bytes → NormOut A)
+theorem normalized_transparent_partial (norm : S → Bytes → Bytes → NormOut A)
     (errRes buildN : S → Bytes → Bytes → R) (failed : R → Bool)
     (hdet : ∀ s q op q' op' nk sy nk' sy', norm s q op = .ok nk sy → norm s q' op' = .ok nk' sy' →
       normCacheKey op q nk = normCacheKey op' q' nk' → buildN s q op = buildN s q' op')
@@ -438,22 +440,43 @@ theorem normalized_transparent_conditional (norm : S → Bytes → Bytes → Nor
           · exact ⟨q, op, nk, sy, hn, rfl, rfl⟩
           · exact h x (mem_removeKey hx)
 
-/-! ## 7. What the structural fingerprint ignores (model of `fingerprintDocument`) -/
+/-- The hypothesis `hdet` of `normalized_transparent_partial` cannot be dropped: with a key that does not
+determine the plan (here: a constant key) the cache logic serves the first request's plan to the second.
+The full-strength statement "every normalising `Get` returns `buildN s q op`" is therefore FALSE for the
+cache logic alone; it holds exactly as far as the fingerprint is sound. -/
+theorem normalized_not_transparent_without_hdet :
+    ∃ (norm : Nat → Bytes → Bytes → NormOut Unit) (buildN : Nat → Bytes → Bytes → Bytes) (c : Cache Nat Bytes)
+      (q1 q2 : Bytes),
+      let c1 := (getNorm norm buildN buildN (fun _ => false) c 0 q1 []).1
+      (getNorm norm buildN buildN (fun _ => false) c1 0 q2 []).2.1.res ≠ buildN 0 q2 [] :=
+  ⟨fun _ _ _ => .ok [1] (), fun _ q _ => q, newPlanCache ⟨1, 0, true⟩, [1], [2], by decide +kernel⟩
+
+/-! ## 7. What participates in the structural fingerprint (model of `fingerprintDocument`, after the repairs of D-06b/c/g) -/
 namespace Fp
 
-/-- variable default values never reach the hash: `query($x:Int=1)` and `query($x:Int=2)` have one key (D-06c) -/
-theorem fingerprint_ignores_variable_defaults (ds : List VarDef) :
-    writeVarDefs (ds.map fun d => { d with default := none }) = writeVarDefs ds := by
-  simp [writeVarDefs, List.flatMap_map]
+/-- variable default values reach the hash: `query($x:Int=1)` and `query($x:Int=2)` get different keys (D-06c repaired) -/
+theorem fingerprint_separates_variable_defaults :
+    writeVarDefs [⟨str "x", .named (str "Int"), some (.int (str "1"))⟩] ≠
+    writeVarDefs [⟨str "x", .named (str "Int"), some (.int (str "2"))⟩] := by decide +kernel
 
-/-- `{ a @skip(if: true) ab }` and `{ a ab }` write the same bytes, hence get the same key (D-06b) -/
+/-- `{ a @skip(if: true) ab }` and `{ a ab }` write different bytes (D-06b repaired) -/
 def docSkip : OpDef := ⟨str "query", [], [],
   [.field none (str "a") [] [⟨str "skip", [(str "if", .bool true)]⟩] none, .field none (str "ab") [] [] none]⟩
 def docPlain : OpDef := ⟨str "query", [], [], [.field none (str "a") [] [] none, .field none (str "ab") [] [] none]⟩
 
-theorem fingerprint_ignores_directives :
-    docSkip ≠ docPlain ∧ fingerprintBytes [] docSkip [] 10 = fingerprintBytes [] docPlain [] 10 := by
-  refine ⟨by simp [docSkip, docPlain], by decide +kernel⟩
+theorem fingerprint_separates_directives :
+    fingerprintBytes [] docSkip [] 10 ≠ fingerprintBytes [] docPlain [] 10 := by decide +kernel
+
+/-- literals inside directive arguments participate too: `@skip(if: 1)` vs `@skip(if: false)` -/
+theorem fingerprint_separates_directive_arguments :
+    writeDirectives [⟨str "skip", [(str "if", .int (str "1"))]⟩] ≠
+    writeDirectives [⟨str "skip", [(str "if", .bool false)]⟩] := by decide +kernel
+
+/-- string contents cannot imitate the encoding any more: one argument `prefix: "1,sep=s2"` versus the two
+arguments `prefix: "1", sep: "2"` (D-06g repaired; before, both wrote `prefix=s1,sep=s2,`) -/
+theorem fingerprint_separates_crafted_strings :
+    writeFields [(str "prefix", .str (str "1,sep=s2"))] ≠
+    writeFields [(str "prefix", .str (str "1")), (str "sep", .str (str "2"))] := by decide +kernel
 
 end Fp
 
